@@ -27,3 +27,24 @@ func VerifBindTimeoutRoute(globalMs int64, routeTimeout time.Duration, h http.Ha
 	}
 	return rt, nil
 }
+
+// VerifBindTimeoutRoutes is VerifBindTimeoutRoute for several route groups: group i holds the one
+// route GET /t<i> with per-route timeout routeTimeouts[i]; groups are added in order, then bound
+// through the real bindRoutes.
+func VerifBindTimeoutRoutes(globalMs int64, routeTimeouts []time.Duration, hs []http.HandlerFunc) (http.Handler, error) {
+	var c RestConf
+	c.Timeout = globalMs
+	c.Middlewares.Timeout = true
+	ng := newEngine(c)
+	for i, rt := range routeTimeouts {
+		ng.addRoutes(featuredRoutes{
+			timeout: rt,
+			routes:  []Route{{Method: http.MethodGet, Path: "/t" + string(rune('0'+i)), Handler: hs[i]}},
+		})
+	}
+	rt := router.NewRouter()
+	if err := ng.bindRoutes(rt); err != nil {
+		return nil, err
+	}
+	return rt, nil
+}
